@@ -281,9 +281,9 @@ namespace vd
     };
 
     // ---- C20: two VMs on two threads ----
-    static std::string run_program_capture(const std::string& text, bool controlled_thread, int tid, sched* sc)
+    static std::string run_program_capture(const std::string& text, bool controlled_thread, int tid, sched* sc, const std::string& ops = "full")
     {
-        vmconf c; c.ops = "full";
+        vmconf c; c.ops = ops == "synth" ? "full" : ops; c.synth = ops == "synth";
         auto v = make_vm(100 + tid, c);
         auto& rt = *v->rt;
         fileio::pathinfo pi(std::string("p.sqf"), std::string("p.sqf"));
@@ -302,7 +302,7 @@ namespace vd
     // ---- C20 controlled: two VMs on two threads, interleaved at instruction boundaries (do.poll hook) ----
     struct isostate
     {
-        std::string p, q; sched sc; std::string out[2];
+        std::string p, q; sched sc; std::string out[2]; std::string ops[2] = { "full", "full" };
     };
     static std::string logs_of(int vmid)
     {
@@ -313,7 +313,7 @@ namespace vd
     static void iso_body(isostate* st, int tid)
     {
         st->sc.thread_start(tid);
-        vmconf c; c.ops = "full";
+        vmconf c; c.ops = st->ops[tid] == "synth" ? "full" : st->ops[tid]; c.synth = st->ops[tid] == "synth";
         auto v = make_vm(100 + tid, c);
         auto& rt = *v->rt;
         fileio::pathinfo pi(std::string("p.sqf"), std::string("p.sqf"));
@@ -337,12 +337,12 @@ namespace vd
     }
     struct iso_explorer
     {
-        std::string p, q, expect; int bound; long max_exec; long execs = 0, points = 0; bool capped = false;
+        std::string p, q, expect, p_ops = "full", q_ops = "full"; int bound; long max_exec; long execs = 0, points = 0; bool capped = false;
         std::set<std::string> outcomes; js::val violations = js::val::array();
         void explore(std::vector<int> prefix)
         {
             if (execs >= max_exec) { capped = true; return; }
-            auto* st = new isostate(); st->p = p; st->q = q;
+            auto* st = new isostate(); st->p = p; st->q = q; st->ops[0] = p_ops; st->ops[1] = q_ops;
             g_log.clear();
             st->sc.reset(2, prefix); S = &st->sc;
             std::thread t0(iso_body, st, 0), t1(iso_body, st, 1);
@@ -431,10 +431,12 @@ namespace vd
         if (what == "isolation")
         {
             verif::g_hooks.point = hook_point; verif::g_hooks.on_event = nullptr; verif::g_hooks.slice = 0;
-            iso_explorer ex; ex.p = req["p"].str(); ex.q = req["q"].str(); ex.bound = (int)req["bound"].i64(1); ex.max_exec = req["max_executions"].i64(20000);
+            iso_explorer ex; ex.p = req["p"].str(); ex.q = req["q"].str();
+            if (req.has("p_ops")) ex.p_ops = req["p_ops"].str();
+            if (req.has("q_ops")) ex.q_ops = req["q_ops"].str(); ex.bound = (int)req["bound"].i64(1); ex.max_exec = req["max_executions"].i64(20000);
             // reference: P alone (Q = empty program) under the same harness
             {
-                auto* st = new isostate(); st->p = ex.p; st->q = "";
+                auto* st = new isostate(); st->p = ex.p; st->q = ""; st->ops[0] = ex.p_ops; st->ops[1] = ex.q_ops;
                 g_log.clear(); st->sc.reset(2, {}); S = &st->sc;
                 std::thread t0(iso_body, st, 0), t1(iso_body, st, 1);
                 st->sc.go(); t0.join(); t1.join(); S = nullptr;
@@ -452,11 +454,12 @@ namespace vd
             // two different VMs on two threads, free running (TSan): programs p and q
             g_clock.real = true;
             std::string p = req["p"].str(), q = req["q"].str();
+            std::string p_ops = req.has("p_ops") ? req["p_ops"].str() : "full", q_ops = req.has("q_ops") ? req["q_ops"].str() : "full";
             int rep = (int)req["repeat"].i64(5);
             for (int i = 0; i < rep; i++)
             {
-                std::thread t0([&] { run_program_capture(p, false, 0, nullptr); });
-                std::thread t1([&] { run_program_capture(q, false, 1, nullptr); });
+                std::thread t0([&] { run_program_capture(p, false, 0, nullptr, p_ops); });
+                std::thread t1([&] { run_program_capture(q, false, 1, nullptr, q_ops); });
                 t0.join(); t1.join();
             }
             res.set("runs", rep);
